@@ -2,24 +2,34 @@ package verifmodel
 
 import (
 	"compress/gzip"
+	"context"
 	"fmt"
 	"io"
 
+	"github.com/andybalholm/brotli"
+	"github.com/cosnicolaou/pbzip2"
+	"github.com/dsnet/compress/bzip2"
 	"github.com/klauspost/compress/zstd"
+	"github.com/klauspost/pgzip"
+	"github.com/pierrec/lz4/v4"
 )
 
-// M3: compression codecs (gzip, zstandard) as opaque invertible stream transforms. The compressed
+// M3: compression codecs (gzip, parallel gzip, lz4, zstandard, brotli, bzip2 and its parallel reader) as
+// opaque invertible stream transforms. The compressed
 // stream is [8-byte stream id][one unconstrained byte per input byte][4-byte end marker written by Close];
 // its length is a deterministic function of the input length, so the two-pass write sees the same size
 // twice. A decoder returns the recorded input of the stream whose id it reads and reports
 // io.ErrUnexpectedEOF if the end marker is missing (the compressor was not closed before the stream was
-// handed on). gzip reads its header eagerly (empty input is an error at construction); zstandard is lazy
-// (empty input is an empty stream). Other codecs are not modelled (harnesses do not select them).
+// handed on). What the real libraries do with an empty input and what they emit for an empty plain text was
+// probed natively: gzip and pgzip read their header eagerly (empty input is an error at construction);
+// zstandard, lz4 and brotli are lazy and treat an empty input as an empty stream; bzip2/pbzip2 are lazy and
+// report an error on the first Read. Every codec but zstandard emits a non-empty frame for an empty plain text.
 
 type CodecLog struct {
 	Format string
 	Plain  []byte
 	Closed bool
+	Frames int // extra bytes emitted because of how the input was chunked (brotli)
 }
 
 var (
@@ -57,6 +67,13 @@ func (w *cmpWriter) write(p []byte) (int, error) {
 		}
 	}
 	w.log.Plain = append(w.log.Plain, p...)
+	if w.log.Format == "brotli" {
+		// andybalholm/brotli emits a meta-block per Write: the compressed length depends on the chunking
+		w.log.Frames++
+		if _, err := w.dst.Write([]byte{Byte("compressed", "")}); err != nil {
+			return 0, err
+		}
+	}
 	ct := make([]byte, len(p))
 	for i := range ct {
 		ct[i] = Byte("compressed", "")
@@ -69,6 +86,12 @@ func (w *cmpWriter) write(p []byte) (int, error) {
 
 func (w *cmpWriter) close() error {
 	if w.closed {
+		return nil
+	}
+	if !w.header && w.log.Format == "zstd" {
+		// klauspost/zstd emits nothing at all for an empty plain text
+		w.closed = true
+		w.log.Closed = true
 		return nil
 	}
 	if !w.header {
@@ -118,7 +141,7 @@ func (r *cmpReader) start() error {
 		}
 	}
 	r.plain = l.Plain
-	r.ok = l.Closed && total == len(l.Plain)+4
+	r.ok = l.Closed && total == len(l.Plain)+l.Frames+4
 	return nil
 }
 
@@ -128,8 +151,11 @@ func (r *cmpReader) read(p []byte) (int, error) {
 	}
 	if !r.init {
 		if err := r.start(); err != nil {
-			if err == io.EOF && r.fmt == "zstd" {
-				return 0, io.EOF // an empty input is an empty zstandard stream
+			if err == io.EOF && (r.fmt == "zstd" || r.fmt == "lz4" || r.fmt == "brotli") {
+				return 0, io.EOF // an empty input is an empty stream for these
+			}
+			if err == io.EOF {
+				err = io.ErrUnexpectedEOF
 			}
 			r.err = err
 			return 0, err
@@ -233,3 +259,181 @@ func ZstdNewReader(r io.Reader, opts ...zstd.DOption) (*zstd.Decoder, error) {
 
 //verif:replace (*github.com/klauspost/compress/zstd.Decoder).Read
 func ZstdDecoderRead(d *zstd.Decoder, p []byte) (int, error) { return zsReaders[d].read(p) }
+
+
+// ---- parallel gzip ----
+
+var (
+	pgWriters = map[*pgzip.Writer]*cmpWriter{}
+	pgReaders = map[*pgzip.Reader]*cmpReader{}
+)
+
+//verif:replace github.com/klauspost/pgzip.NewWriterLevel
+func PgzipNewWriterLevel(w io.Writer, level int) (*pgzip.Writer, error) {
+	if level < pgzip.ConstantCompression || level > pgzip.BestCompression {
+		return nil, NewError("pgzip: invalid compression level")
+	}
+	if FaultPoint("codec.new") {
+		return nil, NewError("injected compressor constructor fault")
+	}
+	z := new(pgzip.Writer)
+	pgWriters[z] = newCmpWriter(w, "pgzip")
+	return z, nil
+}
+
+//verif:replace (*github.com/klauspost/pgzip.Writer).Write
+func PgzipWriterWrite(z *pgzip.Writer, p []byte) (int, error) { return pgWriters[z].write(p) }
+
+//verif:replace (*github.com/klauspost/pgzip.Writer).Flush
+func PgzipWriterFlush(z *pgzip.Writer) error { return nil }
+
+//verif:replace (*github.com/klauspost/pgzip.Writer).Close
+func PgzipWriterClose(z *pgzip.Writer) error { return pgWriters[z].close() }
+
+//verif:replace github.com/klauspost/pgzip.NewReader
+func PgzipNewReader(r io.Reader) (*pgzip.Reader, error) {
+	cr := &cmpReader{src: r, fmt: "pgzip"}
+	if err := cr.start(); err != nil {
+		return nil, err
+	}
+	z := new(pgzip.Reader)
+	pgReaders[z] = cr
+	return z, nil
+}
+
+//verif:replace (*github.com/klauspost/pgzip.Reader).Read
+func PgzipReaderRead(z *pgzip.Reader, p []byte) (int, error) { return pgReaders[z].read(p) }
+
+//verif:replace (*github.com/klauspost/pgzip.Reader).Close
+func PgzipReaderClose(z *pgzip.Reader) error { return nil }
+
+// ---- lz4 ----
+
+var (
+	lzWriters = map[*lz4.Writer]*cmpWriter{}
+	lzReaders = map[*lz4.Reader]*cmpReader{}
+)
+
+//verif:replace github.com/pierrec/lz4/v4.CompressionLevelOption
+func Lz4CompressionLevelOption(l lz4.CompressionLevel) lz4.Option { return nil }
+
+//verif:replace github.com/pierrec/lz4/v4.ConcurrencyOption
+func Lz4ConcurrencyOption(n int) lz4.Option { return nil }
+
+//verif:replace github.com/pierrec/lz4/v4.BlockSizeOption
+func Lz4BlockSizeOption(b lz4.BlockSize) lz4.Option { return nil }
+
+//verif:replace github.com/pierrec/lz4/v4.NewWriter
+func Lz4NewWriter(w io.Writer) *lz4.Writer {
+	z := new(lz4.Writer)
+	lzWriters[z] = newCmpWriter(w, "lz4")
+	return z
+}
+
+//verif:replace (*github.com/pierrec/lz4/v4.Writer).Apply
+func Lz4WriterApply(z *lz4.Writer, opts ...lz4.Option) error {
+	if FaultPoint("codec.new") {
+		return NewError("injected compressor constructor fault")
+	}
+	return nil
+}
+
+//verif:replace (*github.com/pierrec/lz4/v4.Writer).Write
+func Lz4WriterWrite(z *lz4.Writer, p []byte) (int, error) { return lzWriters[z].write(p) }
+
+//verif:replace (*github.com/pierrec/lz4/v4.Writer).Close
+func Lz4WriterClose(z *lz4.Writer) error { return lzWriters[z].close() }
+
+//verif:replace github.com/pierrec/lz4/v4.NewReader
+func Lz4NewReader(r io.Reader) *lz4.Reader {
+	z := new(lz4.Reader)
+	lzReaders[z] = &cmpReader{src: r, fmt: "lz4"}
+	return z
+}
+
+//verif:replace (*github.com/pierrec/lz4/v4.Reader).Apply
+func Lz4ReaderApply(z *lz4.Reader, opts ...lz4.Option) error { return nil }
+
+//verif:replace (*github.com/pierrec/lz4/v4.Reader).Read
+func Lz4ReaderRead(z *lz4.Reader, p []byte) (int, error) { return lzReaders[z].read(p) }
+
+// ---- brotli ----
+
+var (
+	brWriters = map[*brotli.Writer]*cmpWriter{}
+	brReaders = map[*brotli.Reader]*cmpReader{}
+)
+
+//verif:replace github.com/andybalholm/brotli.NewWriterLevel
+func BrotliNewWriterLevel(w io.Writer, level int) *brotli.Writer {
+	z := new(brotli.Writer)
+	brWriters[z] = newCmpWriter(w, "brotli")
+	return z
+}
+
+//verif:replace (*github.com/andybalholm/brotli.Writer).Write
+func BrotliWriterWrite(z *brotli.Writer, p []byte) (int, error) { return brWriters[z].write(p) }
+
+//verif:replace (*github.com/andybalholm/brotli.Writer).Flush
+func BrotliWriterFlush(z *brotli.Writer) error { return nil }
+
+//verif:replace (*github.com/andybalholm/brotli.Writer).Close
+func BrotliWriterClose(z *brotli.Writer) error { return brWriters[z].close() }
+
+//verif:replace github.com/andybalholm/brotli.NewReader
+func BrotliNewReader(r io.Reader) *brotli.Reader {
+	z := new(brotli.Reader)
+	brReaders[z] = &cmpReader{src: r, fmt: "brotli"}
+	return z
+}
+
+//verif:replace (*github.com/andybalholm/brotli.Reader).Read
+func BrotliReaderRead(z *brotli.Reader, p []byte) (int, error) { return brReaders[z].read(p) }
+
+// ---- bzip2 (dsnet writer and reader, cosnicolaou parallel reader) ----
+
+var (
+	bzWriters = map[*bzip2.Writer]*cmpWriter{}
+	bzReaders = map[*bzip2.Reader]*cmpReader{}
+)
+
+//verif:replace github.com/dsnet/compress/bzip2.NewWriter
+func Bzip2NewWriter(w io.Writer, conf *bzip2.WriterConfig) (*bzip2.Writer, error) {
+	if conf != nil && (conf.Level < 0 || conf.Level > bzip2.BestCompression) {
+		return nil, NewError("bzip2: invalid compression level")
+	}
+	if FaultPoint("codec.new") {
+		return nil, NewError("injected compressor constructor fault")
+	}
+	z := new(bzip2.Writer)
+	bzWriters[z] = newCmpWriter(w, "bzip2")
+	return z, nil
+}
+
+//verif:replace (*github.com/dsnet/compress/bzip2.Writer).Write
+func Bzip2WriterWrite(z *bzip2.Writer, p []byte) (int, error) { return bzWriters[z].write(p) }
+
+//verif:replace (*github.com/dsnet/compress/bzip2.Writer).Close
+func Bzip2WriterClose(z *bzip2.Writer) error { return bzWriters[z].close() }
+
+//verif:replace github.com/dsnet/compress/bzip2.NewReader
+func Bzip2NewReader(r io.Reader, conf *bzip2.ReaderConfig) (*bzip2.Reader, error) {
+	z := new(bzip2.Reader)
+	bzReaders[z] = &cmpReader{src: r, fmt: "bzip2"}
+	return z, nil
+}
+
+//verif:replace (*github.com/dsnet/compress/bzip2.Reader).Read
+func Bzip2ReaderRead(z *bzip2.Reader, p []byte) (int, error) { return bzReaders[z].read(p) }
+
+//verif:replace (*github.com/dsnet/compress/bzip2.Reader).Close
+func Bzip2ReaderClose(z *bzip2.Reader) error { return nil }
+
+type pbzReader struct{ r *cmpReader }
+
+func (p *pbzReader) Read(b []byte) (int, error) { return p.r.read(b) }
+
+//verif:replace github.com/cosnicolaou/pbzip2.NewReader
+func Pbzip2NewReader(ctx context.Context, rd io.Reader, opts ...pbzip2.ReaderOption) io.Reader {
+	return &pbzReader{r: &cmpReader{src: rd, fmt: "bzip2"}}
+}
